@@ -433,6 +433,14 @@ void run(size_t idx) {
 		if (loadNif(nif, m.bytes) != 0) return;
 		std::string what = "api:" + m.desc;
 		if (idx % 7 == 3 && permutePartitionVertexMaps(nif, rng) > 0) what += " [partition vertex maps permuted]";
+		if (idx % 6 == 3 && idx % 4 == 3 && dropPartitionFaces(nif) > 0) {
+			// SSE: a file whose partitions come without the optional face list
+			NifFile cp(nif);
+			std::string b2 = saveNif(cp, true);
+			if (loadNif(nif, b2) != 0) return;
+			what += " [partitions without face lists]";
+			R_stat("models_with_partitions_without_face_lists");
+		}
 		bool strips = false;
 		if (idx % 5 == 4 && (idx % 6) < 3) {   // OB/FO3/SK: strip geometry
 			auto shapes = nif.GetShapes();
